@@ -303,3 +303,79 @@ pub fn facts_stats(f: &Facts, case: &mut Case) -> (u64, u64) {
     case.stat("edges_parent_id_gt_child_id", inv);
     (multi, inherited)
 }
+
+/// obsolete flags and replacements: (id, obsolete, replacement)
+pub type Flags = Vec<(u32, bool, Option<u32>)>;
+
+/// Mark some leaf-ish terms obsolete (optionally with a replacement that exists, collides with
+/// another term, does not resolve, or is 0) and add a few disconnected obsolete terms.
+pub fn gen_flags(rng: &mut Rng, f: &mut Facts) -> Flags {
+    let mut flags: Flags = vec![];
+    let ids: Vec<u32> = f.terms.iter().map(|t| t.0).collect();
+    let extra = rng.below(3);
+    for _ in 0..extra {
+        let id = gen_ids(rng, 1, &ids)[0];
+        if f.terms.iter().any(|t| t.0 == id) {
+            continue;
+        }
+        f.terms.push((id, format!("obsolete {}", gen_name(rng))));
+        let repl = match rng.below(5) {
+            0 => None,
+            1 => Some(rng.range(1, 9_999_999) as u32), // may not resolve
+            _ => Some(*rng.pick(&ids)),
+        };
+        flags.push((id, true, repl));
+    }
+    for id in &ids {
+        if *id == 1 || *id == 118 {
+            continue;
+        }
+        if rng.chance(1, 8) {
+            let repl = match rng.below(4) {
+                0 => None,
+                _ => Some(*rng.pick(&ids)),
+            };
+            flags.push((*id, rng.chance(3, 4), repl));
+        }
+    }
+    flags
+}
+
+/// Render a fact set as decoded-record ops (`f*`) loaded through the binary format `fv`.
+pub fn facts_to_fops(rng: &mut Rng, f: &Facts, flags: &Flags, fv: u8, slot: u32, shuffle: bool, case: &mut Case) {
+    case.op("fnew".to_string());
+    case.op(format!("fversion {} {} {}", f.version.0, f.version.1, f.version.2));
+    let mut terms = f.terms.clone();
+    if shuffle {
+        rng.shuffle(&mut terms);
+    }
+    for (id, nm) in &terms {
+        let fl = flags.iter().find(|x| x.0 == *id);
+        let (obs, repl) = fl.map(|x| (x.1, x.2)).unwrap_or((false, None));
+        case.op(format!("fterm {} {} {} {}", id, name(nm), b(obs), opt(repl)));
+    }
+    let mut edges = f.edges.clone();
+    if shuffle {
+        rng.shuffle(&mut edges);
+    }
+    for (p, c) in &edges {
+        case.op(format!("fparent {} {}", p, c));
+    }
+    for k in 0..3 {
+        let mut recs = f.recs[k].clone();
+        if shuffle {
+            rng.shuffle(&mut recs);
+        }
+        for (r, nm) in &recs {
+            case.op(format!("frec {} {} {}", KINDS[k], r, name(nm)));
+        }
+        let mut links = f.links[k].clone();
+        if shuffle {
+            rng.shuffle(&mut links);
+        }
+        for (r, t) in &links {
+            case.op(format!("flink {} {} {}", KINDS[k], r, t));
+        }
+    }
+    case.op(format!("fload {} {}", fv, slot));
+}
